@@ -209,6 +209,7 @@ class Interp:
         self.loop_limit = LOOP_LIMIT
         self.state_limit = PATH_LIMIT * 50
         self.lists = {}           # list id -> length (k-bounded list model, see listmodel.py)
+        self.acq_limit = None     # cut a path when it is about to issue more than this many blocking acquisitions
         self.frame_fn = {}        # frame id -> function (types of locals)
         self.getptrs_hook = None  # data model: get_ptrs of the abstract root lockable appends the modelled leaves
         self.model_vecs = False   # Vec::new / HashSet::new create modelled containers (semantic container rules)
@@ -529,6 +530,11 @@ class Interp:
                         return Const(not st.facts[a[1]])
                     return ("op", a[1] + "!", ("not", a))
             if rv["op"] == "PtrMetadata":
+                if self.lists:
+                    import listmodel
+                    vw = listmodel.as_view(self, st, a)
+                    if vw is not None:
+                        return Const(vw[4][1][1] - vw[4][0][1])
                 return self.fresh_op(st, "len", tag=("len", a))
             return self.fresh_op(st, "u", tag=("unop", rv["op"], a))
         if k == "discr":
@@ -1239,6 +1245,9 @@ class Interp:
         recv = self.recv_name(self.recv_of(st, args[0]))
         cur = st.locks.get(recv, "U")
         if kind == "ACQ":
+            if self.acq_limit is not None and sum(1 for e in st.events if e["k"] == "ACQ") >= self.acq_limit:
+                # bounded retries of an optimistic algorithm: one blocking acquisition per round, whatever the loop looks like
+                return [("cut", "retry bound (%d blocking acquisitions)" % self.acq_limit, st)]
             ev = self.emit(st, {"k": "ACQ", "recv": recv, "mode": mode, "impl": tdef}, fn, line)
             if cur in ("W", "R"):
                 self.problem(st, "ACQ_WHILE_HELD", ev, have=cur)
